@@ -3,6 +3,7 @@
 //@ replace: xv_atr_setter xv_atr_getter xv_atr_cb
 //@ pre-unwind: visit_value.0:4
 //@ flags: --object-bits 10 --memory-leak-check
+//@ bounded: the getter answers EOVERFLOW at most twice (values of at most ATR_NEED_MAX = 1 KiB: buffer 256 -> 512 -> 1024); everything else (type, mode, getter result, errno, callback) is arbitrary
 //@ props: C10
 //@ expect: postcondition>=6 canary=6
 #include "_unit.h"
